@@ -1,5 +1,5 @@
 rc_target("c15_ring", flavour="sched", wrap=True)
-plan("C15", [T("c15_ring", 2500, 30000)], min_nt=300,
+plan("C15", [T("c15_ring", 5000, 40000)], min_nt=300,
      rule="sequential histories and two-thread histories under generated schedules (walk / bounded-preemption / PCT)",
      technique="property-based testing over (program, schedule) pairs: controlled scheduler with decision points at every atomic, overlap/containment/pattern oracle",
      level_text="Generated search over request sequences and thread schedules. One acquirer and one releaser thread run on real pthreads under a "
